@@ -407,6 +407,7 @@ pub fn gen_net(rng: &mut Rng, opts: &GenOpts) -> NetCfg {
             let (outof, into) = rng.pick(&cands);
             net.loopbacks.push((outof, into, rng.range(1, 3), rng.chance(0.4)));
             net.loop_acc = rng.pick(&ALL_ACCS);
+            net.loop_scale = rng.below(3) as u8;
         }
     }
 
